@@ -129,7 +129,7 @@ def run_design(v, w, tier):
             if not r["violated"]:
                 raise Infra("design model Indexer_mc is vacuous: witness %s is unreachable" % name)
     # documentation runs that must fail: the model is faithful to the deviation / depends on the atomic batch
-    for cfg, what in (("Indexer_mc_dev.cfg", "ConvergesStrict with deviation D18 enabled"), ("Indexer_mc_nonatomic.cfg", "Converges with a non-atomic indexer")):
+    for cfg, what in (("Indexer_mc_dev.cfg", "ConvergesStrict with deviation D21 enabled"), ("Indexer_mc_nonatomic.cfg", "Converges with a non-atomic indexer")):
         r = vlib.tlc(d, "Indexer_mc", cfg, workers=4, timeout=900)
         if not r["violated"]:
             raise Infra("design model: %s should be violated but holds (%s)" % (what, cfg))
